@@ -24,7 +24,10 @@ META = {
     "(same-CRS aligned / shifted / scaled / mirrored / rotated / touching / disjoint; 20000+ px rasters with pixel-size ratios "
     "k(1 +- 1e-2..1e-6); queries and dependency graphs across 13 CRSs: UTM, Albers, LAEA, polar stereographic, web mercator "
     "and geographic CRSs other than EPSG:4326, continental lon/lat boxes with vertices that have no finite image; raising "
-    "is an oracle failure of its own; results are held and re-checked after later calls).",
+    "is an oracle failure of its own; results are held and re-checked after later calls; the same GeoBox under different "
+    "tilings in both directions; every query / dependency oracle also on tilings derived by crop / clip / clip_tiles "
+    "not starting at tile 0, after a two-sided structural oracle of the derived object; 4326 triangles / slivers / boxes "
+    "with long curved edges against continental Albers / LAEA / UTM rasters with small tiles).",
     "note": "Trusted: Lean kernel + {propext, Classical.choice, Quot.sound}; shapely predicates and pyproj are "
     "parameters (general path: completeness under the footprint-superset hypothesis, `_partial`; cross-CRS pairs are "
     "sampled by the oracle only, threshold 0.5 px^2); same-CRS oracle: overlap > 1e-6 source px^2 and, on the linear "
